@@ -242,7 +242,6 @@ func checkC05(c *Ctx) {
 		if funcPkgPath(h) != modPath+"/protocol/synchronizer" {
 			continue
 		}
-		fh := NewFlow(p, h)
 		delay := p.Func("core/eventloop", "DelayUntil")
 		isDelay := func(in ssa.Instruction) bool {
 			call, ok := in.(*ssa.Call)
@@ -253,32 +252,55 @@ func checkC05(c *Ctx) {
 			return cal.Origin() == delay && len(cal.TypeArgs()) == 1 && cal.TypeArgs()[0].String() == modPath+".ViewChangeEvent"
 		}
 		// from every edge that establishes localView < proposalView, a return is reachable only through DelayUntil
-		// (the far-future drop, proposalView > localView+alpha, is the stated exception)
+		// (the far-future drop, proposalView > localView+alpha, is the stated exception). The gate may sit in the
+		// handler or in a private helper of its package that the handler asks "not now?".
 		found, bad := false, ""
-		for _, b := range h.Blocks {
-			for _, s := range b.Succs {
-				for _, f := range fh.edgeFacts(b, s) {
-					if f.Op == "<" && strings.HasPrefix(f.L, "(*hs/protocol.ViewStates).View(") && strings.HasPrefix(f.R, kBlockView) {
-						found = true
-						if w := reachAvoidBlock(s, isReturn, isDelay); w != nil {
-							bad = p.InstrPos(w)
+		var argOK bool
+		for _, hf := range helperClosure(p, h, 2) {
+			if funcPkgPath(hf) != funcPkgPath(h) {
+				continue
+			}
+			fh := NewFlow(p, hf)
+			for _, b := range hf.Blocks {
+				for _, s := range b.Succs {
+					for _, f := range fh.edgeFacts(b, s) {
+						if f.Op == "<" && strings.HasPrefix(f.L, "(*hs/protocol.ViewStates).View(") && strings.HasPrefix(f.R, kBlockView) {
+							found = true
+							if w := reachAvoidBlock(s, isReturn, isDelay); w != nil {
+								bad = p.InstrPos(w)
+							}
 						}
 					}
 				}
 			}
-		}
-		var argOK bool
-		eachInstr(h, func(in ssa.Instruction) {
-			if isDelay(in) {
+			eachInstr(hf, func(in ssa.Instruction) {
+				if !isDelay(in) {
+					return
+				}
 				call := in.(*ssa.Call)
 				k := fh.K.Key(call.Call.Args[1])
-				argOK = k == ev || k == "*&["+ev+"]" || strings.HasSuffix(k, "["+ev+"]")
 				if mi, ok := call.Call.Args[1].(*ssa.MakeInterface); ok {
-					kk := fh.K.Key(mi.X)
-					argOK = kk == ev || strings.Contains(kk, ev)
+					k = fh.K.Key(mi.X)
 				}
-			}
-		})
+				if hf == h {
+					argOK = k == ev || k == "*&["+ev+"]" || strings.Contains(k, ev)
+					return
+				}
+				// in a helper: the delayed value is the helper's parameter that the handler binds to the event
+				for _, ref := range callIndexOf(p).callers[hf] {
+					cs, isCall := ref.Instr.(*ssa.Call)
+					if !isCall || declaredParent(ref.In) != declaredParent(h) && ref.In != h {
+						continue
+					}
+					hk := NewKeyer(p, ref.In)
+					for i, a := range cs.Call.Args {
+						if strings.Contains(k, "p"+itoa(i)) && strings.Contains(hk.Key(a), ev) {
+							argOK = true
+						}
+					}
+				}
+			})
+		}
 		c.Check(found && bad == "" && argOK, "C05.6", "ProposeMsg handler: early proposals are deferred to the next view change", p.FuncPos(h),
 			"when the proposal's view is ahead of the local view (within the drift limit) the handler always reaches DelayUntil[ViewChangeEvent](proposal)",
 			"a proposal ahead of the local view can be dropped (return at "+bad+" without deferring it): a replica that lags by one view never votes")
